@@ -27,6 +27,8 @@ def same_val(a, b):
         k = join_kinds(a.kind, b.kind)
         a, _ = coerce(a, k)
         b, _ = coerce(b, k)
+    if isinstance(a.kind, KOpt):
+        return and_(a.terms[0] == b.terms[0], or_(a.terms[0], same_val(opt_get(a), opt_get(b))))
     if isinstance(a.kind, KList):
         i = z3.Int(uid("sm"))
         cell = same_val(list_get(a, i), list_get(b, i))
